@@ -57,6 +57,9 @@ theorem hexSide_neg (half inner : K) (aa : Bool) (r c sn cn : K) :
     hexSide half inner aa (-r) (-c) (-sn) (-cn) = hexSide half inner aa r c sn cn := by
   unfold hexSide; simp only [neg_mul_neg]
 
+theorem meshCoord_recentre (n S r : Int) (s : K) : meshCoord n (r + n / 2) s = meshCoord S (r + S / 2) s := by
+  unfold meshCoord Gen.meshCoord; push_cast; ring
+
 theorem meshRot_neg (a b ca sa : K) : Gen.meshRot (-a) (-b) ca sa = (-(Gen.meshRot a b ca sa).1, -(Gen.meshRot a b ca sa).2) := by
   unfold Gen.meshRot; ext <;> simp only <;> ring
 
